@@ -87,7 +87,7 @@ UnLayer(fam, S) ==
          \cup {<<"collect", r, "vec">> : r \in Reps(S, {<<0, Inf>>})}
          \cup {<<"collect", <<cf, <<"rep", a, 0, Inf>>>>, "vec">> : cf \in {"cfgrep", "cfgrepmin", "cfgrepmax"}, a \in {x \in S : ~CanEmpty(x)}}
          \cup {<<"run", <<"cfgrep", <<"rep", a, 0, Inf>>>>>> : a \in {x \in S : ~CanEmpty(x)}}
-    [] fam \in {"spn", "spng"} ->
+    [] fam \in {"spn", "spng", "spnr"} ->
          \* every node can be wrapped in a span / slice capture (to_slice only where the kind has slices)
          Un(S, IF fam = "spn" THEN {"tospan", "toslice", "mw", "ornot", "rewind"} ELSE {"tospan", "mw", "ornot", "rewind"})
          \cup {<<"collect", r, "vec">> : r \in Reps(S, {<<0, Inf>>})}
@@ -110,7 +110,7 @@ BinLayer(fam, S1, S2) ==
                       \cup {<<"choice", <<a, b>>>> : a \in S1, b \in S2} \cup {<<"choicev", <<a, b>>>> : a \in S1, b \in S2}
     [] fam = "emit" -> Bin(S1, S2, {"then", "or", "andis"})
     [] fam = "err" -> Bin(S1, S2, {"then", "or", "andis"}) \cup {<<"choicev", <<a, b>>>> : a \in S1, b \in S2}
-    [] fam \in {"spn", "spng"} ->
+    [] fam \in {"spn", "spng", "spnr"} ->
          Bin(S1, S2, {"then", "or"})
          \cup {<<"foldlw", a, <<"rep", b, 0, Inf>>, "g">> : a \in S1, b \in {x \in S2 : ~CanEmpty(x)}}
          \cup {<<"foldrw", <<"rep", a, 0, Inf>>, b, "g">> : a \in {x \in S1 : ~CanEmpty(x)}, b \in S2}
@@ -135,6 +135,8 @@ LeavesOf(fam) ==
     [] fam = "err" -> {J("a"), J("b"), JJ("a", "b"), <<"any">>, <<"end">>, <<"cust", 1, FALSE>>}
     [] fam = "rep" -> {J("a"), J("b"), J(","), JJ("a", "b"), <<"any">>}
     [] fam \in {"spn", "spng"} -> {J("a"), JJ("a", "b"), <<"any">>, <<"empty">>}
+    \* the same with the by-reference primitives (inputs that can lend their tokens: slices, Input::map over a slice)
+    [] fam = "spnr" -> {J("a"), <<"anyr">>, <<"selr", <<"a">>>>, <<"any">>, <<"empty">>}
     [] fam = "rcv" -> {J("a"), J("b"), JJ("a", "b"), <<"any">>}
     [] fam = "lbl" -> {J("a"), J("b"), JJ("a", "b"), <<"any">>, <<"end">>, <<"cust", 1, FALSE>>}
     [] fam = "memo" -> {J("a"), J("b"), JJ("a", "b"), <<"any">>, <<"cust", 1, FALSE>>}
